@@ -40,7 +40,17 @@ type Env struct {
 func (e *Env) dataDir() string { return filepath.Join(e.Root, "data") }
 func (e *Env) walDir() string  { return filepath.Join(e.Root, "wal") }
 func (e *Env) shardDir(id uint64) string {
-	return filepath.Join(e.dataDir(), dbName, rpName, fmt.Sprint(id))
+	return filepath.Join(e.dataDir(), dbName, rpOf(id), fmt.Sprint(id))
+}
+
+// rpOf: the shards of one database alternate between two retention policies
+// (raw / down-sampled style): the series file and the inmem index are per
+// database, not per policy.
+func rpOf(id uint64) string {
+	if id%2 == 0 {
+		return "rp1"
+	}
+	return rpName
 }
 
 // Open opens the store, creating missing shards.
@@ -72,7 +82,7 @@ func (e *Env) Open() error {
 		}
 		os.MkdirAll(e.shardDir(id), 0o755)
 		os.WriteFile(filepath.Join(e.shardDir(id), tsm1.DoNotCompactFile), nil, 0o644)
-		if err := s.CreateShard(dbName, rpName, id, true); err != nil {
+		if err := s.CreateShard(dbName, rpOf(id), id, true); err != nil {
 			s.Close()
 			e.Store = nil
 			return fmt.Errorf("create shard %d: %w", id, err)
